@@ -312,8 +312,13 @@ package anchoring
 
 // parseFuncParams decodes into the object BlankParams() returned (an interface value whose dynamic type is not known
 // statically): assumed to write only that object, which no caller state refers to.
+// anchMadeBy(x, f): x is a parameter object handed out by function object f (a relation: every call hands out a new object)
+//@ spec anchMadeBy(x FunctionParams, f FunctionBase) bool
+//@ ifacemethod FunctionBase.BlankParams
+//@   ensures anchMadeBy(result, self)
 //@ func parseFuncParams
-//@   trusted
+//@   property C19 C09
+//@   ensures [the_functions_own_parameter_object] anchMadeBy(result, fun)
 
 // ---- no state shared between requests (C09): every request decodes its function parameters into a new object
 //@ func (*InlineAnchoringApplier).BlankParams
@@ -522,3 +527,8 @@ package anchoring
 //@   property C19 C20 C09
 //@   ensures [names] fresh(result) && len(result) == len(a.anchoringAppliers) && forall k int :: 0 <= k && k < len(a.anchoringAppliers) ==> result[k] == applierName(a.anchoringAppliers[k])
 //@   loop 1 invariant [so_far] fresh(existing) && len(existing) == len(a.anchoringAppliers) && forall k int :: 0 <= k && k < iter ==> existing[k] == applierName(a.anchoringAppliers[k])
+
+//@ func (*NewCriterionAnchoringApplier).BlankParams
+//@   property C09 C19
+//@   nopanic
+//@   ensures [new_object_each_time] typeis(result, *utils.Map) && fresh(result.(*utils.Map))
